@@ -16,6 +16,9 @@ MCRelsFld   == <<"read", "write", "conv", "sconv", "lit", "psel">>
 MCKindsVal  == <<"func", "named", "alias", "var", "const", "cgm", "tparam">>
 MCRelsVal   == <<"call", "read", "write", "conv", "inst", "retfn">>
 
+MCKindsConv == <<"func", "struct", "field">>
+MCRelsConv  == <<"read", "write", "sconv", "lit">>
+
 O(k, ex, ow, sl, ty) == [k |-> k, ex |-> ex, ow |-> ow, sl |-> sl, ty |-> ty]
 R(r, a, b, c) == [r |-> r, a |-> a, b |-> b, c |-> c]
 
